@@ -102,6 +102,44 @@ def _is_snapshot(term: ast.AST, selfn: str) -> Optional[bool]:
     return None
 
 
+def _param_snapshot(ctx, f, p: str):
+    """What the callers of history owner `f` pass for its parameter `p`: (True, "") when every caller passes a fresh copy that
+    nothing else keeps, (False, why) when some caller passes the live array / an array it also keeps, (None, why) otherwise."""
+    idx = f.params.index(p) - 1  # position among the arguments (self excluded)
+    sites = 0
+    for g in ctx.prog.all_functions():
+        gv = ctx.fv(g)
+        for cs in gv.calls():
+            if not (cs.callee.kind == "func" and cs.callee.func is f):
+                continue
+            arg = None
+            for k in cs.call.keywords:
+                if k.arg == p:
+                    arg = k.value
+            if arg is None and 0 <= idx < len(cs.call.args) and not any(isinstance(a_, ast.Starred) for a_ in cs.call.args):
+                arg = cs.call.args[idx]
+            if arg is None:
+                if any(isinstance(a_, ast.Starred) for a_ in cs.call.args) or any(k.arg is None for k in cs.call.keywords):
+                    return None, f"{g.qualname} passes `{p}` in a way that cannot be followed"
+                continue  # default value: decided by the body of f itself
+            sites += 1
+            gs = g.params[0] if g.params else ""
+            if isinstance(arg, ast.Name):
+                # the same array object kept elsewhere by the caller (bound to an attribute, stored in a container)?
+                for nd in gv.cfg.nodes:
+                    if nd.kind == "stmt" and isinstance(nd.ast, (ast.Assign, ast.AnnAssign)) and nd.ast.value is not None and is_name(nd.ast.value, arg.id):
+                        tg = nd.ast.targets[0] if isinstance(nd.ast, ast.Assign) else nd.ast.target
+                        if isinstance(tg, (ast.Attribute, ast.Subscript)):
+                            return False, f"{g.qualname} passes `{arg.id}` and also keeps it as `{show(tg)[:40]}`: the history entry is that live object"
+            t = gv.res.resolve(arg, cs.node)
+            sn = _is_snapshot(t, gs)
+            if sn is False:
+                return False, f"{g.qualname} passes `{show(t)[:40]}` (the live array)"
+            if sn is None:
+                return None, f"cannot establish that `{show(t)[:40]}` passed by {g.qualname} is a copy"
+    return True, f"{sites} call sites pass a fresh copy"
+
+
 def snapshot(ctx) -> None:
     rule = "C11.snapshot"
     lab = ctx.prog.require_class("Labware", rule)
@@ -143,6 +181,21 @@ def snapshot(ctx) -> None:
                 n += 1
                 t = fv.res.resolve(v, node.id)
                 snap = _is_snapshot(t, selfn)
+                alts = list(t.args) if is_sym(t, "phi") else [t] if isinstance(t, ast.Name) and t.id in f.params[1:] else None
+                if snap is None and alts is not None:
+                    # a value handed in by the callers (possibly with a default computed here): every alternative must be a copy
+                    verdicts = []
+                    for a_ in alts:
+                        if isinstance(a_, ast.Name) and a_.id in f.params[1:]:
+                            verdicts.append(_param_snapshot(ctx, f, a_.id))
+                        else:
+                            verdicts.append((_is_snapshot(a_, selfn), show(a_)[:40]))
+                    if any(v_[0] is False for v_ in verdicts):
+                        why = next(v_[1] for v_ in verdicts if v_[0] is False)
+                        ctx.rep.refuted(rule, f"{f.qualname}/{stmt_key(a)[:60]}", f"`{stmt_key(a)[:70]}` stores what the caller hands in, and {why} - later operations silently rewrite this entry", where=f.where(a))
+                        continue
+                    if all(v_[0] is True for v_ in verdicts):
+                        snap = True
                 if snap is None and isinstance(t, ast.Call) and call_fname(t) in ("round", "around", "round_", "floor", "ceil", "rint", "trunc", "astype"):
                     ctx.rep.refuted(rule, f"{f.qualname}/{stmt_key(a)[:60]}/exact", f"`{stmt_key(a)[:70]}` stores `{show(t)[:50]}`: the history entry is a rounded / converted version of the "
                                     "volumes, not the state the labware was in", where=f.where(a))
@@ -360,8 +413,10 @@ def condense_count(ctx, dev) -> None:
 def lvh_count(ctx, dev) -> None:
     rule = "C11.lvh-count"
     from . import lvh_model
-    from .c06 import _vol_lists
+    from .c06 import _vol_lists, keyed_by_wells
 
+    if keyed_by_wells(ctx, dev, rule):
+        return
     t, cands = _vol_lists(ctx, dev, rule)
     fv, f = t.fv, t.f
     cb = f"{dev.name}.transfer"
